@@ -5,6 +5,7 @@ import (
 	"fmt"
 	"os"
 	"path/filepath"
+	"runtime"
 	"sort"
 	"strings"
 	"sync"
@@ -48,6 +49,10 @@ nodes:
 type MRouteCase struct {
 	Mids     []string      `json:"mids"`
 	Messages []interface{} `json:"messages"`
+	// Down[i]: the store is closed while message i (and what its
+	// emissions cause) is processed: no machine state advances then,
+	// but routing and the reporting of emissions go on as before
+	Down []bool `json:"down,omitempty"`
 }
 
 var mMidPool = []string{"a", "b", "c", "timers", "ws", "m 1"}
@@ -91,8 +96,12 @@ func genMRoute(t *rapid.T) MRouteCase {
 	perm := rapid.Permutation(mMidPool).Draw(t, "mids")
 	c.Mids = append(c.Mids, perm[:rapid.IntRange(0, 4).Draw(t, "n")]...)
 	counter := 0
+	faults := rapid.IntRange(0, 2).Draw(t, "faults") == 0
 	for i := rapid.IntRange(1, 4).Draw(t, "nm"); i > 0; i-- {
 		c.Messages = append(c.Messages, genMRouted(t, c.Mids, 0, fmt.Sprintf("m%d", i), &counter))
+		if faults {
+			c.Down = append(c.Down, rapid.IntRange(0, 2).Draw(t, fmt.Sprintf("down%d", i)) == 0)
+		}
 	}
 	return c
 }
@@ -142,59 +151,31 @@ func checkMRoute(c MRouteCase) (v ev.Verdict) {
 	os.MkdirAll(dir, 0755)
 	defer os.RemoveAll(dir)
 	os.WriteFile(filepath.Join(dir, "vrecorder.yaml"), []byte(verifRecorderYAML), 0644)
-	s, err := NewService(ctx, dir, "", "")
+	dbFile := ""
+	if len(c.Down) > 0 {
+		dbFile = filepath.Join(dir, "crew.db")
+	}
+	s, err := NewService(ctx, dir, dbFile, "")
 	if err != nil {
 		v.Failf("NewService: %v", err)
 		return
 	}
+	storeDown := false
+	defer func() {
+		if dbFile != "" {
+			if storeDown {
+				s.store.Open(context.Background())
+			}
+			cancel()
+			s.store.Close(context.Background())
+		}
+	}()
 	s.Emitted = make(chan interface{}, 4096)
 	s.Errors = make(chan interface{}, 4096)
 	s.wsClientC = make(chan interface{}, 4096)
 	for _, mid := range c.Mids {
 		if err := s.AddMachine(ctx, "vrecorder", mid, "", nil); err != nil {
 			v.Failf("AddMachine %q: %v", mid, err)
-			return
-		}
-	}
-	wantLog := map[string][]string{}
-	var wantEmitted []string
-	wantWS := 0
-	routed, broadcast, reinjected := 0, 0, 0
-	for _, msg := range c.Messages {
-		queue := []interface{}{msg}
-		first := true
-		for len(queue) > 0 {
-			cur := queue[0]
-			queue = queue[1:]
-			if !first {
-				reinjected++
-			}
-			first = false
-			tg, svc := mTargets(c.Mids, cur)
-			if svc == "ws" {
-				wantWS++
-			}
-			if m, ok := cur.(map[string]interface{}); ok {
-				if _, has := m["to"].(string); has {
-					routed++
-				} else {
-					broadcast++
-				}
-			}
-			for _, mid := range tg {
-				wantLog[mid] = append(wantLog[mid], jsongen.Canon(cur))
-				if m, ok := cur.(map[string]interface{}); ok {
-					if em, ok := m["emit"].([]interface{}); ok {
-						for _, e := range em {
-							wantEmitted = append(wantEmitted, jsongen.Canon(e))
-							queue = append(queue, e)
-						}
-					}
-				}
-			}
-		}
-		if _, err := s.Process(ctx, jsongen.Copy(msg), nil); err != nil {
-			v.Failf("Process: %v", err)
 			return
 		}
 	}
@@ -217,48 +198,116 @@ func checkMRoute(c MRouteCase) (v ev.Verdict) {
 		}
 		return n
 	}
-	// emissions are re-processed asynchronously: wait for the expected
-	// volume, then a grace period to catch duplicates
-	deadline := time.Now().Add(5 * time.Second)
-	for total(logs()) < total(wantLog) && time.Now().Before(deadline) {
-		time.Sleep(time.Millisecond)
+	wantLog := map[string][]string{}
+	var wantEmitted, gotEmitted []string
+	drain := func() {
+		for {
+			select {
+			case x := <-s.Emitted:
+				gotEmitted = append(gotEmitted, jsongen.Canon(x))
+				continue
+			default:
+			}
+			return
+		}
 	}
-	time.Sleep(30 * time.Millisecond)
+	wantWS := 0
+	routed, broadcast, reinjected, faulted := 0, 0, 0, 0
+	for mi, msg := range c.Messages {
+		down := mi < len(c.Down) && c.Down[mi]
+		if dbFile != "" && down != storeDown {
+			if down {
+				s.store.Close(ctx)
+			} else {
+				s.store.Open(ctx)
+			}
+			storeDown = down
+		}
+		if down {
+			faulted++
+		}
+		queue := []interface{}{msg}
+		first := true
+		for len(queue) > 0 {
+			cur := queue[0]
+			queue = queue[1:]
+			if !first {
+				reinjected++
+			}
+			first = false
+			tg, svc := mTargets(c.Mids, cur)
+			if svc == "ws" {
+				wantWS++
+			}
+			if m, ok := cur.(map[string]interface{}); ok {
+				if _, has := m["to"].(string); has {
+					routed++
+				} else {
+					broadcast++
+				}
+			}
+			for _, mid := range tg {
+				if !down {
+					// with the store down the machine's state (its
+					// log) does not advance, but it still reacts
+					wantLog[mid] = append(wantLog[mid], jsongen.Canon(cur))
+				}
+				if m, ok := cur.(map[string]interface{}); ok {
+					if em, ok := m["emit"].([]interface{}); ok {
+						for _, e := range em {
+							wantEmitted = append(wantEmitted, jsongen.Canon(e))
+							queue = append(queue, e)
+						}
+					}
+				}
+			}
+		}
+		goroutines := runtime.NumGoroutine()
+		s.Process(ctx, jsongen.Copy(msg), nil)
+		// emissions are re-processed asynchronously (one goroutine
+		// each): wait for the expected volume and for those goroutines
+		// to end, then a grace period to catch duplicates
+		deadline := time.Now().Add(8 * time.Second)
+		for time.Now().Before(deadline) {
+			drain()
+			if total(logs()) >= total(wantLog) && len(gotEmitted) >= len(wantEmitted) && runtime.NumGoroutine() <= goroutines {
+				break
+			}
+			time.Sleep(time.Millisecond)
+		}
+		time.Sleep(10 * time.Millisecond)
+		for i := 0; i < 200 && runtime.NumGoroutine() > goroutines; i++ {
+			time.Sleep(5 * time.Millisecond)
+		}
+		drain()
+		if len(gotEmitted) < len(wantEmitted) || total(logs()) < total(wantLog) {
+			time.Sleep(500 * time.Millisecond) // slowness or loss? loss is a stable shortfall
+			drain()
+		}
+	}
 	got := logs()
-	if total(got) < total(wantLog) && time.Now().After(deadline) {
-		// could be slowness or loss; loss shows as a stable shortfall
-		time.Sleep(500 * time.Millisecond)
-		got = logs()
-	}
 	for _, mid := range c.Mids {
 		g := append([]string{}, got[mid]...)
 		w := append([]string{}, wantLog[mid]...)
 		sort.Strings(g)
 		sort.Strings(w)
 		if strings.Join(g, "\n") != strings.Join(w, "\n") {
-			v.Failf("machine %q received\n %v\nbut must have received exactly\n %v", mid, got[mid], wantLog[mid])
+			v.Failf("machine %q received %d messages but must have received exactly %d (store down per message: %v)\n got  %v\n want %v", mid, len(g), len(w), c.Down, diffCounts(g, w), "")
 			return
 		}
-	}
-	var gotEmitted []string
-	for {
-		select {
-		case x := <-s.Emitted:
-			gotEmitted = append(gotEmitted, jsongen.Canon(x))
-			continue
-		default:
-		}
-		break
 	}
 	sort.Strings(gotEmitted)
 	sort.Strings(wantEmitted)
 	if strings.Join(gotEmitted, "\n") != strings.Join(wantEmitted, "\n") {
-		v.Failf("the service reported emitted messages\n %v\nbut the machines emitted exactly\n %v", gotEmitted, wantEmitted)
+		v.Failf("the service reported emitted messages\n %v\nbut the machines emitted exactly\n %v (store down per message: %v)", gotEmitted, wantEmitted, c.Down)
 		return
 	}
 	if len(s.wsClientC) != wantWS {
 		v.Failf("%d messages were addressed to the websocket service, it received %d", wantWS, len(s.wsClientC))
 		return
+	}
+	if faulted > 0 {
+		v.Class("store-down-during-a-message")
 	}
 	v.NonTrivial = len(c.Mids) >= 2 && routed >= 1 && broadcast >= 1 && reinjected >= 1
 	for _, mid := range c.Mids {
@@ -273,4 +322,28 @@ func TestC14Mcrew(t *testing.T) {
 	ev.Run(t, ev.Opts{Property: "C14", Name: "mcrew", Quick: 200, Thorough: 8000, ShrinkTime: "10s",
 		Rule: "mcrew Service (no store) with 0-4 recorder machines (ids incl. reserved service names) x 1-4 messages whose 'to' is absent, a known/unknown id, a reserved service name or a non-string, with emission trees re-processed asynchronously; per machine the multiset of received messages, the multiset on Service.Emitted and the count on the websocket channel must equal the routing model's; non-trivial = >= 2 machines, >= 1 routed, >= 1 broadcast, >= 1 re-injected message"},
 		genMRoute, checkMRoute)
+}
+
+
+// diffCounts summarises how two multisets differ.
+func diffCounts(got, want []string) string {
+	m := map[string]int{}
+	for _, x := range got {
+		m[x]++
+	}
+	for _, x := range want {
+		m[x]--
+	}
+	var sb strings.Builder
+	keys := make([]string, 0, len(m))
+	for k := range m {
+		keys = append(keys, k)
+	}
+	sort.Strings(keys)
+	for _, k := range keys {
+		if m[k] != 0 {
+			fmt.Fprintf(&sb, "%+d x %s; ", m[k], ev.Trunc(k, 120))
+		}
+	}
+	return sb.String()
 }
